@@ -24,7 +24,13 @@ type Context interface {
 	Param(name string) string
 	QueryParam(name string) string
 	QueryParams() map[string][]string
+	QueryString() string
+	FormValue(name string) string
+	FormParams() (map[string][]string, error)
+	Path() string
 	JSON(code int, i any) error
+	NoContent(code int) error
+	String(code int, s string) error
 }
 
 // Ctx is the concrete context the harness builds.
@@ -54,6 +60,36 @@ func (c *Ctx) Param(name string) string {
 func (c *Ctx) QueryParam(name string) string { return c.Req.URL.Query().Get(name) }
 
 func (c *Ctx) QueryParams() map[string][]string { return c.Req.URL.Query() }
+
+func (c *Ctx) QueryString() string { return c.Req.URL.RawQuery }
+
+// FormValue and FormParams follow net/http's Request.Form: body fields merged with the URL query
+func (c *Ctx) FormValue(name string) string { return c.Req.FormValue(name) }
+
+func (c *Ctx) FormParams() (map[string][]string, error) {
+	merged := map[string][]string{}
+	for k, vs := range c.Req.PostForm {
+		merged[k] = append(merged[k], vs...)
+	}
+	for k, vs := range c.Req.URL.Query() {
+		merged[k] = append(merged[k], vs...)
+	}
+	return merged, nil
+}
+
+func (c *Ctx) Path() string { return c.Req.URL.Path }
+
+func (c *Ctx) NoContent(code int) error {
+	c.Resp.Status = code
+	return nil
+}
+
+func (c *Ctx) String(code int, s string) error {
+	c.Resp.Status = code
+	c.Body = s
+	c.HasBody = true
+	return nil
+}
 
 func (c *Ctx) JSON(code int, i any) error {
 	c.Resp.Status = code
